@@ -138,7 +138,8 @@ func (s *Sim) note(format string, a ...interface{}) {
 
 // viol records a violation of kind k (judged or foreign).
 func (s *Sim) viol(kind, key, detail string) {
-	if s.Judged != nil && !s.Judged[kind] {
+	if s.Judged != nil && !s.Judged[kind] || s.Judged == nil && strings.HasPrefix(kind, "revoke-") {
+		// revocation-endpoint kinds belong to C08 alone; a monitor that judges "everything the sweep sees" does not own them
 		s.R.ForeignObs(kind + " " + key)
 		return
 	}
@@ -782,6 +783,25 @@ func (s *Sim) Revoke(t *Tok, as, hint string, badSecret bool) *world.Out {
 						x.Fuzzy = "sibling-of-revoked-in-hybrid-grant"
 					}
 				}
+			} else if state == "expired" {
+				// an already-invalid token: answered with success, and nothing may change. Dropping the expired record itself is
+				// not observable; what counts is whether a token of the grant that was alive is still alive.
+				for _, x := range g.Toks {
+					if x == t {
+						continue
+					}
+					if vv, _ := s.Expect(x); vv != MustActive {
+						continue
+					}
+					in := s.W.IntrospectAPI(x.Value, fosite.TokenUse(x.Kind+"_token"))
+					s.R.Count("expired_revocation_siblings_checked", 1)
+					if !in.Active {
+						s.R.Count(fmt.Sprintf("expired_revocation_killed:%s->%s", t.Kind, x.Kind), 1)
+						s.viol("revoke-expired-changed-state", "live token of the same grant invalidated",
+							fmt.Sprintf("revoking the expired %s invalidated the live %s of the same grant", t.Name(), x.Name()))
+						s.kill(x, "revoke")
+					}
+				}
 			} else {
 				for _, x := range g.Toks {
 					if x.Dead == "" && x.Fuzzy == "" {
@@ -991,5 +1011,15 @@ func (s *Sim) checkRequested(g *Grant, r *reqCapture, grant string) {
 	}
 	if !sameElems(r.au, g.ReqAud) {
 		s.viol("requested-audience-changed", grant, fmt.Sprintf("the accepted %s request carries requested audience %v, the authorization request asked for %v", grant, r.au, g.ReqAud))
+	}
+}
+
+// ForgetAfterForgedRevocation re-synchronises the model after the server acted on a token string it never issued: what the
+// request did to t's grant is no longer specified by any statement.
+func (s *Sim) ForgetAfterForgedRevocation(t *Tok) {
+	for _, x := range t.Grant.Toks {
+		if x.Dead == "" && x.Fuzzy == "" {
+			x.Fuzzy = "revocation-through-forged-token"
+		}
 	}
 }
